@@ -75,8 +75,8 @@ Definition apply_wrs (m : mem) (ws : list wr) : mem := fold_left apply_wr ws m.
 (** * Programs *)
 
 Inductive oop := Push (x : Z) | Pop | Put (x : Z).
-Inductive tmode := MTake | MW (d : bool).
-Inductive top_op := Take | WTake (d : bool) | Pass (x : Z) | Peek.
+Inductive tmode := MTake | MW (d : bool) | MP.   (* take / wsapi take with decision bit / wsapi peek (cache refill) *)
+Inductive top_op := Take | WTake (d : bool) | Pass (x : Z) | Peek | WPeek.
 
 (** owner program counters; arguments are the C locals that are live *)
 Inductive opc :=
@@ -118,7 +118,12 @@ Inductive tpc :=
 | TPassSlot (x b : Z)             (* "wsq.pass.slot"      : q->ptr[b-1] = th ; wbarrier     *)
 | TPassBase (x : Z)               (* "wsq.pass.base"      : q->base--                       *)
 | TPeekRead                       (* "wsq.peek.read"      : b = base ; top = top            *)
-| TPeekSlot (b : Z).              (* "wsq.peek.slot"      : ret = q->ptr[b]                 *)
+| TPeekSlot (b : Z)               (* "wsq.peek.slot"      : ret = q->ptr[b]                 *)
+(* myth_wsapi_runqueue_peek (no POINTs of its own): refill of the hint cache under trylock with
+   the take-and-roll-back idiom (mode MP of the take pcs), then the seqlock read *)
+| TPeekCheck                      (* under the lock: "if (!wc->ptr)" again                  *)
+| TUnlockP                        (* "spin.unlock", then on to the seqlock read             *)
+| TPeekSeq.                       (* s0 = seq ; ret = wc->ptr ; s1 = seq (writers are one step) *)
 
 (** ghost event of a step *)
 Inductive gev := GNone | GPushed (x : Z) | GReturned (x : Z) | GAbort.
@@ -185,14 +190,23 @@ Definition owner_tick (v : mem) (sz : Z) (pc : opc) : res opc :=
   | OPutUnlock => Some ([WLock 0], ODone 0, GNone)
   end.
 
+(** "start:" of myth_wsapi_runqueue_peek: empty -> NULL; cache filled -> read it; else trylock *)
+Definition peek_start (v : mem) : tpc :=
+  if top v - base v <=? 0 then TDone 0 else if wptr v =? 0 then TLock MP else TPeekSeq.
+
 Definition thief_tick (v : mem) (pc : tpc) : res tpc :=
   match pc with
   | TIdle | TDone _ => None
   | TQuick =>
       if top v - base v <=? 0 then Some ([], TDone 0, GNone) else Some ([], TLock MTake, GNone)
   | TLock m =>
-      if lck v =? 0 then Some ([WLock 1], TReadBase m, GNone)
-      else match m with MTake => None | MW _ => Some ([], TDone 0, GNone) end
+      if lck v =? 0 then
+        Some ([WLock 1], match m with MP => TPeekCheck | _ => TReadBase m end, GNone)
+      else match m with
+           | MTake => None
+           | MW _ => Some ([], TDone 0, GNone)
+           | MP => Some ([], peek_start v, GNone)          (* "goto start" *)
+           end
   | TReadBase m => Some ([], TWriteBase m (base v), GNone)
   | TWriteBase m b => Some ([WBase (b + 1)], TReadTop m b, GNone)
   | TReadTop m b =>
@@ -203,8 +217,9 @@ Definition thief_tick (v : mem) (pc : tpc) : res tpc :=
       | MTake => Some ([], TUnlock r, GReturned r)
       | MW true => Some (invalidate v, TUnlock r, GReturned r)
       | MW false => Some ([], TRollback m b, GNone)
+      | MP => Some ([WSeq (wseq v + 1); WCptr r; WSeq (wseq v + 2)], TRollback m b, GNone)
       end
-  | TRollback m b => Some ([WBase b], TUnlock 0, GNone)
+  | TRollback m b => Some ([WBase b], match m with MP => TUnlockP | _ => TUnlock 0 end, GNone)
   | TUnlock r => Some ([WLock 0], TDone r, GNone)
   | TPassTry x =>
       if lck v =? 0 then Some ([WLock 1], TPassCheck x, GNone) else Some ([], TDone 0, GNone)
@@ -215,6 +230,10 @@ Definition thief_tick (v : mem) (pc : tpc) : res tpc :=
   | TPeekRead =>
       if base v <? top v then Some ([], TPeekSlot (base v), GNone) else Some ([], TDone 0, GNone)
   | TPeekSlot b => Some ([], TDone (znth (ptr v) b), GNone)
+  | TPeekCheck =>
+      if wptr v =? 0 then Some ([], TReadBase MP, GNone) else Some ([], TUnlockP, GNone)
+  | TUnlockP => Some ([WLock 0], TPeekSeq, GNone)
+  | TPeekSeq => Some ([], TDone (wptr v), GNone)
   end.
 
 (** entering an operation = the code from the call up to the first POINT.  peek and the
@@ -228,6 +247,7 @@ Definition thief_call (v : mem) (o : top_op) : tpc :=
   | WTake d => if top v - base v <=? 0 then TDone 0 else TLock (MW d)
   | Pass x => TPassTry x
   | Peek => if top v - base v <=? 0 then TDone 0 else TPeekRead
+  | WPeek => peek_start v
   end.
 
 (** steps that are locked instructions (the CAS of trylock) *)
@@ -263,14 +283,14 @@ Definition tlabel (pc : tpc) : string * Z :=
   | TIdle => (""%string, 0) | TDone r => ("ret"%string, r)
   | TQuick => ("wsq.take.quick"%string, 0)
   | TLock _ | TPassTry _ => ("spin.trylock"%string, 0)
-  | TUnlock _ => ("spin.unlock"%string, 0)
+  | TUnlock _ | TUnlockP => ("spin.unlock"%string, 0)
   | TReadBase MTake => ("wsq.take.readbase"%string, 0)
   | TWriteBase MTake b => ("wsq.take.writebase"%string, b)
   | TReadTop MTake b => ("wsq.take.readtop"%string, b)
   | TSlot MTake b => ("wsq.take.slot"%string, b)
   | TRollback MTake b => ("wsq.take.rollback"%string, b)
-  | TReadBase (MW _) | TWriteBase (MW _) _ | TReadTop (MW _) _
-  | TSlot (MW _) _ | TRollback (MW _) _ => (""%string, 0)
+  | TReadBase _ | TWriteBase _ _ | TReadTop _ _
+  | TSlot _ _ | TRollback _ _ | TPeekCheck | TPeekSeq => (""%string, 0)
   | TPassCheck x => ("wsq.pass.check"%string, x)
   | TPassSlot x _ => ("wsq.pass.slot"%string, x)
   | TPassBase x => ("wsq.pass.base"%string, x)
